@@ -38,26 +38,76 @@ let show_evs top evs = match evs, top with
       | EFuel -> Some "FUEL"
       | ELoop (t, n, r) -> Some ("th=" ^ string_of_z t ^ " sc=" ^ string_of_z n ^ " r=" ^ string_of_z r)) evs in
     (match top with Loop _ -> "L[" | _ -> "P[") ^ String.concat " " items ^ "]"
+(* constants probed from the compiled library (argv), defaults = today's source values *)
+let consts =
+  let a i d = if Array.length Sys.argv > i then z_of_string Sys.argv.(i) else z_of_string d in
+  let day365 = "31536000000000" and y10 = "315360000000000" in
+  { c_min_wait = a 1 day365; c_min_update = a 2 day365;
+    c_max_wf = a 3 y10; c_max_wfc = a 4 y10; c_max_uf = a 5 y10; c_max_ufc = a 6 y10 }
+
+(* events of the choice-driven model; cs = the choices of this op (to name the entry lost at FUEL) *)
+let show_aevs top evs cs = match evs, top with
+  | [EOut o], Basic _ -> show_out o
+  | _ ->
+    let fired = ref 0 in
+    let items = List.filter_map (function
+      | EFire (e, _) -> incr fired; Some (string_of_int (int_of_nat e))
+      | EOut OOk -> None
+      | EOut o -> Some (show_out o)
+      | EFuel -> Some ("FUEL:" ^ (match List.nth_opt cs !fired with Some e -> string_of_int (int_of_nat e) | None -> "?"))
+      | EBad e -> Some ("BAD-CHOICE:" ^ string_of_int (int_of_nat e))
+      | EStuck -> Some "STOPPED-WHILE-DUE"
+      | ELoop (t, n, r) -> Some ("th=" ^ string_of_z t ^ " sc=" ^ string_of_z n ^ " r=" ^ string_of_z r)) evs in
+    (match top with Loop _ -> "L[" | _ -> "P[") ^ String.concat " " items ^ "]"
+
+let parse_common hd mask scr ops =
+  let (n, k) = (match split_ws hd with [n; k] -> (int_of_string n, int_of_string k) | _ -> failwith "head") in
+  let mask = String.trim mask in
+  let valids = List.init n (fun i -> if mask = "-" then true else mask.[i] = '1') in
+  let tbl = Array.make n [] in
+  List.iter (fun sc -> match String.index_opt sc ':' with
+    | Some i -> let e = int_of_string (String.trim (String.sub sc 0 i)) in
+                let body = String.sub sc (i + 1) (String.length sc - i - 1) in
+                tbl.(e) <- List.map (fun o -> parse_bop (split_ws o)) (split_list ',' body)
+    | None -> failwith "script") (split_list ';' scr);
+  let env = { e_scr = Array.to_list tbl; e_valid = valids; e_fuel = nat_of_int k; e_foreign = [] } in
+  let ops2 = List.map (fun o -> match (String.trim o).[0] with
+    | 'X' | 'Y' | 'Z' -> parse_op2 o | _ -> OnA (parse_op o)) (split_list ',' ops) in
+  (n, env, ops2)
+
+(* the array-heap model of the current code's tie-breaking policy (Model.v) *)
+let concrete_line n env ops2 =
+  let ((s, sb), outs) = run2 env (init (nat_of_int n), init (nat_of_int n)) ops2 in
+  let toks = List.map2 (fun o evs -> match o with OnA o -> show_evs o evs | OnB b -> show_evs (Basic b) evs) ops2 outs in
+  let sched = List.filter_map (fun e -> match due_of s (nat_of_int e), due_of sb (nat_of_int e) with
+    | Some d, _ | None, Some d -> Some (Printf.sprintf "%d:%s" e (string_of_z d)) | None, None -> None) (List.init n (fun i -> i)) in
+  let hp = List.map (fun h -> string_of_z h.h_time ^ ":" ^
+    (match h.h_entry with Some e -> string_of_int (int_of_nat e) | None -> "-")) s.heap in
+  String.concat " " toks ^ " | S[" ^ String.concat " " sched ^ "] H[" ^ String.concat " " hp ^ "]"
+
+(* the choice-driven model (AModel.v); choices = one group per top-level op *)
+let abstract_line n env ops2 choices =
+  let rec zip os cs = match os, cs with
+    | [], _ -> [] | o :: r, [] -> (o, []) :: zip r [] | o :: r, c :: cr -> (o, c) :: zip r cr in
+  let opcs = zip ops2 choices in
+  let ((a, ab), outs) = arun2 consts env (ainit (nat_of_int n), ainit (nat_of_int n)) opcs in
+  let toks = List.map2 (fun (o, cs) evs -> match o with OnA o -> show_aevs o evs cs | OnB b -> show_aevs (Basic b) evs cs) opcs outs in
+  let nth_opt l i = match List.nth_opt l i with Some x -> x | None -> None in
+  let sched = List.filter_map (fun e -> match nth_opt a.a_due e, nth_opt ab.a_due e with
+    | Some d, _ | None, Some d -> Some (Printf.sprintf "%d:%s" e (string_of_z d)) | None, None -> None) (List.init n (fun i -> i)) in
+  String.concat " " toks ^ " | S[" ^ String.concat " " sched ^ "]"
+
 let () = each_line (fun line ->
   match String.split_on_char '|' line with
   | [hd; mask; scr; ops] ->
-    let (n, k) = (match split_ws hd with [n; k] -> (int_of_string n, int_of_string k) | _ -> failwith "head") in
-    let mask = String.trim mask in
-    let valids = List.init n (fun i -> if mask = "-" then true else mask.[i] = '1') in
-    let tbl = Array.make n [] in
-    List.iter (fun sc -> match String.index_opt sc ':' with
-      | Some i -> let e = int_of_string (String.trim (String.sub sc 0 i)) in
-                  let body = String.sub sc (i + 1) (String.length sc - i - 1) in
-                  tbl.(e) <- List.map (fun o -> parse_bop (split_ws o)) (split_list ',' body)
-      | None -> failwith "script") (split_list ';' scr);
-    let env = { e_scr = Array.to_list tbl; e_valid = valids; e_fuel = nat_of_int k; e_foreign = [] } in
-    let ops2 = List.map (fun o -> match (String.trim o).[0] with
-      | 'X' | 'Y' | 'Z' -> parse_op2 o | _ -> OnA (parse_op o)) (split_list ',' ops) in
-    let ((s, sb), outs) = run2 env (init (nat_of_int n), init (nat_of_int n)) ops2 in
-    let toks = List.map2 (fun o evs -> match o with OnA o -> show_evs o evs | OnB b -> show_evs (Basic b) evs) ops2 outs in
-    let sched = List.filter_map (fun e -> match due_of s (nat_of_int e), due_of sb (nat_of_int e) with
-      | Some d, _ | None, Some d -> Some (Printf.sprintf "%d:%s" e (string_of_z d)) | None, None -> None) (List.init n (fun i -> i)) in
-    let hp = List.map (fun h -> string_of_z h.h_time ^ ":" ^
-      (match h.h_entry with Some e -> string_of_int (int_of_nat e) | None -> "-")) s.heap in
-    String.concat " " toks ^ " | S[" ^ String.concat " " sched ^ "] H[" ^ String.concat " " hp ^ "]"
+    let (n, env, ops2) = parse_common hd mask scr ops in
+    concrete_line n env ops2
+  | [hd; mask; scr; ops; ch] ->
+    (* 5th section: the implementation's firing sequence per top-level op: groups separated by ';' *)
+    let (n, env, ops2) = parse_common hd mask scr ops in
+    let choices = List.map (fun g -> List.map (fun x -> nat_of_int (int_of_string x)) (split_ws g))
+                    (String.split_on_char ';' ch) in
+    let al = abstract_line n env ops2 choices in
+    let cl = (try concrete_line n env ops2 with _ -> "CONCRETE-MODEL-ERROR") in
+    al ^ " || " ^ cl
   | _ -> "BADCASE")
